@@ -362,6 +362,11 @@ func (r *frun) exec(op fop, rng *rt.Rand) {
 		st.T0 = time.Now()
 		time.Sleep(time.Duration(r.Cfg.MaxDurMS+6) * time.Millisecond)
 		st.T1 = time.Now()
+	case "nap":
+		// shorter than MaxDuration: a file that is written steadily still grows old
+		st.T0 = time.Now()
+		time.Sleep(time.Duration(r.Cfg.MaxDurMS/3+1) * time.Millisecond)
+		st.T1 = time.Now()
 	}
 	st.Snap = snapshot(r.Dir)
 	r.hold(st.Snap)
@@ -424,7 +429,12 @@ func genOps(r *rt.Rand, c fcfg, n int) []fop {
 				ops = append(ops, fop{Kind: "reopen"})
 			}
 		default:
-			if c.MaxDurMS > 0 {
+			if c.MaxDurMS > 0 && r.Bool() {
+				// steady traffic: writes a third of MaxDuration apart, for longer than MaxDuration
+				for k := 0; k < 5; k++ {
+					ops = append(ops, fop{Kind: "nap"}, fop{Kind: "write", Len: r.Range(8, 40)})
+				}
+			} else if c.MaxDurMS > 0 {
 				ops = append(ops, fop{Kind: "pause"})
 			} else {
 				ops = append(ops, fop{Kind: "write", Len: r.Range(8, 40)})
